@@ -57,6 +57,18 @@ Init ==
   /\ dgot = [n \in Ids |-> None] /\ dres = [n \in Ids |-> "none"] /\ dcount = [n \in Ids |-> 0]
   /\ panicked = FALSE
 
+\* every variable back to its initial value (packed traces: one case after the other)
+ResetAll ==
+  /\ now' = 0
+  /\ acc' = [n \in Ids |-> "idle"] /\ astart' = [n \in Ids |-> -1] /\ wire' = <<>> /\ lastMsg' = None
+  /\ rpc' = "recv" /\ rid' = None /\ rgen' = 0
+  /\ cur' = [n \in Ids |-> 0] /\ gens' = [n \in Ids |-> 0]
+  /\ buf' = [n \in Ids |-> [g \in Gens |-> None]] /\ done' = [n \in Ids |-> [g \in Gens |-> FALSE]]
+  /\ tws' = {} /\ twn' = 0
+  /\ dpc' = [n \in Ids |-> "idle"] /\ dgen' = [n \in Ids |-> 0] /\ ddl' = [n \in Ids |-> 0] /\ dstart' = [n \in Ids |-> -1]
+  /\ dgot' = [n \in Ids |-> None] /\ dres' = [n \in Ids |-> "none"] /\ dcount' = [n \in Ids |-> 0]
+  /\ panicked' = FALSE
+
 \* ---- acceptor side ------------------------------------------------------------------------
 AcceptListen(n) ==
   /\ acc[n] = "idle" /\ now <= IssueMax
